@@ -1,137 +1,56 @@
 (* D. Conservation (C01 for DiBS): the output of segment_utt is the input
-   units with single spaces inserted at unit boundaries only. *)
-From WS Require Import Base.Py Base.Str Base.Seg Separator.Model Dibs.Model Dibs.StrLemmas.
+   units with single spaces inserted at unit boundaries only.
+
+   Since fix b848432 the words are built as lists of units and joined (Dibs/Model.v,
+   seg_words); the word separator is only used to tokenize the input.  The theorems
+   below therefore hold for EVERY word separator; before the fix they needed a
+   hypothesis (sep_ok: the first character of the separator occurs in no unit and
+   nowhere else in the separator, and the separator is whitespace-free). *)
+From WS Require Import Base.Py Base.Str Base.Seg Separator.Model Dibs.Model Dibs.StrLemmas Dibs.Proofs.
 From Coq Require Import QArith.
 Local Open Scope nat_scope.
 
-(* Sufficient condition on the word separator w.r.t. the units of an utterance:
-   it is non-empty and whitespace-free, its first character c0 does not occur
-   again inside it, and c0 occurs in no unit.  (True of ";eword" on text whose
-   units do not contain ';'.) *)
-Definition sep_ok (wordsep : str) (units : list str) : Prop :=
-  exists (c0 : char) (w : str),
-    wordsep = c0 :: w /\
-    ws_free wordsep /\
-    ~ In c0 w /\
-    Forall (fun u : str => ~ In c0 u) units.
-
-Section Seg.
-Variables (t : list ((str * str) * Q)) (thr : Q).
-
-Definition bnd (x y : str) : bool := qlt_b thr (dget t (x, y)).
-
-(* the rendered tail: each unit preceded by a space iff a boundary was placed *)
-Fixpoint rend (prev : str) (rest : list str) : str :=
-  match rest with
-  | [] => []
-  | u :: r => (if bnd prev u then [sp] else []) ++ u ++ rend u r
-  end.
-
-(* the grouping of prev :: rest into words: (first group, remaining groups) *)
-Fixpoint grp (prev : str) (rest : list str) : list str * list (list str) :=
-  match rest with
-  | [] => ([prev], [])
-  | u :: r =>
-    let (g, gs) := grp u r in
-    if bnd prev u then ([prev], g :: gs) else (prev :: g, gs)
-  end.
-
-Lemma grp_concat (rest : list str) : forall (prev : str),
-  concat (fst (grp prev rest) :: snd (grp prev rest)) = prev :: rest.
-Proof.
-  induction rest as [|u r IH]; intros prev; [reflexivity|].
-  cbn [grp]. specialize (IH u). destruct (grp u r) as [g gs]. cbn [fst snd] in IH.
-  destruct (bnd prev u); cbn [fst snd].
-  - cbn [concat app] in *. now rewrite IH.
-  - cbn [concat app] in *. now rewrite IH.
-Qed.
-
-Lemma grp_nonnil (rest : list str) : forall (prev : str),
-  Forall (fun g : list str => g <> []) (fst (grp prev rest) :: snd (grp prev rest)).
-Proof.
-  induction rest as [|u r IH]; intros prev.
-  - cbn [grp fst snd]. constructor; [discriminate|constructor].
-  - cbn [grp]. specialize (IH u). destruct (grp u r) as [g gs]. cbn [fst snd] in IH.
-    destruct (bnd prev u); cbn [fst snd].
-    + constructor; [discriminate|exact IH].
-    + inversion IH as [|? ? _ Hgs]; subst. constructor; [discriminate|exact Hgs].
-Qed.
-
-Lemma grp_join (rest : list str) : forall (prev : str),
-  join [sp] (map (@concat char) (fst (grp prev rest) :: snd (grp prev rest))) = prev ++ rend prev rest.
-Proof.
-  induction rest as [|u r IH]; intros prev.
-  - cbn [grp fst snd map concat join rend]. reflexivity.
-  - cbn [grp rend]. specialize (IH u). destruct (grp u r) as [g gs]. cbn [fst snd] in IH.
-    destruct (bnd prev u); cbn [fst snd].
-    + cbn [map] in *. rewrite join_cons2. cbn [concat]. rewrite app_nil_r.
-      f_equal. f_equal. exact IH.
-    + cbn [map] in *. cbn [concat]. rewrite join_cons_app. f_equal. exact IH.
-Qed.
-
-(* replacing the separator in the concatenated loop output renders it *)
-Lemma replace_seg_loop (c0 : char) (w : str) (rest : list str) : forall (prev : str),
-  Forall (fun u : str => ~ In c0 u) rest ->
-  replace_go (c0 :: w) [sp] (concat (seg_loop t thr (c0 :: w) prev rest)) 0 = rend prev rest.
-Proof.
-  induction rest as [|u r IH]; intros prev F; [reflexivity|].
-  inversion F as [|? ? Hu Hr]; subst.
-  cbn [seg_loop rend]. fold (bnd prev u). rewrite concat_app.
-  destruct (bnd prev u).
-  - cbn [concat]. rewrite app_nil_r, <- !app_assoc.
-    rewrite replace_go_at. rewrite replace_go_copy by exact Hu.
-    rewrite (IH u Hr). reflexivity.
-  - cbn [concat]. rewrite app_nil_r.
-    rewrite replace_go_copy by exact Hu.
-    rewrite (IH u Hr). reflexivity.
-Qed.
-
-Lemma seg_loop_ws_free (wordsep : str) (rest : list str) : forall (prev : str),
-  ws_free wordsep -> Forall ws_free rest -> Forall ws_free (seg_loop t thr wordsep prev rest).
-Proof.
-  induction rest as [|u r IH]; intros prev Hw F; [constructor|].
-  inversion F as [|? ? Hu Hr]; subst. cbn [seg_loop].
-  apply Forall_app. split.
-  - destruct (qlt_b thr (dget t (prev, u))); repeat constructor; assumption.
-  - now apply IH.
-Qed.
-
-End Seg.
-
-Lemma unit_ok_ws_free (l : list str) : Forall unit_ok l -> Forall ws_free l.
-Proof. apply Forall_impl. intros u [_ H]. exact H. Qed.
-
-Lemma segment_utt_eq (t : list ((str * str) * Q)) (thr : Q) (wordsep utt p0 : str) (rest : list str) :
-  split_ws (replace_all wordsep [sp] utt) = p0 :: rest ->
-  segment_utt t thr wordsep utt =
-  Ok (replace_all wordsep [sp] (replace_all [sp] [] (join [sp] (p0 :: seg_loop t thr wordsep p0 rest)))).
-Proof. intros E. unfold segment_utt. rewrite E. reflexivity. Qed.
-
 Theorem segment_utt_is_seg : forall (t : list ((str * str) * Q)) (thr : Q) (wordsep utt out : str),
-  sep_ok wordsep (split_ws (replace_all wordsep [sp] utt)) ->
   segment_utt t thr wordsep utt = Ok out ->
   is_seg (split_ws (replace_all wordsep [sp] utt)) out.
 Proof.
-  intros t thr wordsep utt out [c0 [w [E [Hws [Hc0 Hun]]]]] H.
+  intros t thr wordsep utt out H. unfold segment_utt in H.
+  destruct (split_ws (replace_all wordsep [sp] utt)) as [|p0 rest]; [discriminate H|].
+  injection H as <-.
+  exists (seg_words t thr p0 rest [p0] []).
+  split; [apply seg_words_concat|]. split; [apply seg_words_nonnil|reflexivity].
+Qed.
+
+(* the units are non-empty and whitespace-free, so the segmentation can be read back:
+   the words of the output are non-empty groups of the units, and deleting the spaces
+   of the output gives the units concatenated *)
+Theorem segment_utt_words_groups : forall (t : list ((str * str) * Q)) (thr : Q) (wordsep utt out : str),
+  segment_utt t thr wordsep utt = Ok out ->
+  exists groups : list (list str),
+    concat groups = split_ws (replace_all wordsep [sp] utt) /\
+    Forall (fun g : list str => g <> []) groups /\
+    split_ws out = map (@concat char) groups.
+Proof.
+  intros t thr wordsep utt out H.
+  destruct (split_ws (replace_all wordsep [sp] utt)) as [|p0 rest] eqn:Eu.
+  { unfold segment_utt in H. rewrite Eu in H. discriminate H. }
+  exists (seg_words t thr p0 rest [p0] []).
+  split; [apply seg_words_concat|]. split; [apply seg_words_nonnil|].
+  exact (segment_utt_words t thr wordsep utt out p0 rest Eu H).
+Qed.
+
+Theorem segment_utt_despace : forall (t : list ((str * str) * Q)) (thr : Q) (wordsep utt out : str),
+  segment_utt t thr wordsep utt = Ok out ->
+  despace out = concat (split_ws (replace_all wordsep [sp] utt)).
+Proof.
+  intros t thr wordsep utt out H.
   pose proof (split_ws_ok (replace_all wordsep [sp] utt)) as Hok.
   destruct (split_ws (replace_all wordsep [sp] utt)) as [|p0 rest] eqn:Eu.
-  { unfold segment_utt in H. rewrite Eu in H. discriminate. }
-  rewrite (segment_utt_eq t thr wordsep utt p0 rest Eu) in H.
-  assert (Eo : out = replace_all wordsep [sp]
-                       (replace_all [sp] [] (join [sp] (p0 :: seg_loop t thr wordsep p0 rest))))
-    by (injection H; intros X; symmetry; exact X).
-  clear H Eu. subst out.
-  inversion Hun as [|? ? Hp0 Hrest]; subst.
-  apply unit_ok_ws_free in Hok. inversion Hok as [|? ? Wp0 Wrest]; subst.
-  rewrite replace_sp_nil.
-  rewrite despace_join
-    by (constructor; [exact Wp0|now apply seg_loop_ws_free]).
-  cbn [replace_all concat].
-  rewrite replace_go_copy by exact Hp0.
-  rewrite replace_seg_loop by exact Hrest.
-  exists (fst (grp t thr p0 rest) :: snd (grp t thr p0 rest)).
-  split; [apply grp_concat|]. split; [apply grp_nonnil|].
-  symmetry. apply grp_join.
+  { unfold segment_utt in H. rewrite Eu in H. discriminate H. }
+  rewrite (segment_utt_seg_loop t thr wordsep utt p0 rest Eu) in H. injection H as <-.
+  inversion Hok as [|? ? [_ Hp0] Hrest]; subst.
+  cbn [concat]. rewrite despace_app, despace_seg_loop by exact Hrest.
+  now rewrite despace_nosp by exact Hp0.
 Qed.
 
 (* segment_utt fails exactly on utterances without units *)
@@ -146,11 +65,10 @@ Qed.
 Theorem segment_aligned : forall (test : list str) (s : summary) (k : kind) (thr : Q) (pwb : option Q)
                                  (wordsep : str) (outs : list str),
   s_word (sm_sep s) = Some wordsep ->
-  Forall (fun utt : str => sep_ok wordsep (split_ws (replace_all wordsep [sp] utt))) test ->
   segment test s k thr pwb = Ok outs ->
   aligned (map (fun utt : str => split_ws (replace_all wordsep [sp] utt)) test) outs.
 Proof.
-  intros test s k thr pwb wordsep outs Hw F H.
+  intros test s k thr pwb wordsep outs Hw H.
   unfold segment, wordsep_of in H. rewrite Hw in H. cbn [bind] in H.
   destruct (match pwb with
             | Some q => if qlt_b q 0 || qlt_b 1 q then Raise ValueError else Ok tt
@@ -158,7 +76,7 @@ Proof.
   cbn [bind] in H.
   destruct (qlt_b thr 0 || qlt_b 1 thr); [discriminate|]. cbn [bind] in H.
   destruct (init_diphones k s pwb) as [t|e]; [|discriminate]. cbn [bind] in H.
-  revert outs H. induction F as [|utt r Hutt Hr IH]; intros outs H.
+  revert outs H. induction test as [|utt r IH]; intros outs H.
   - injection H as <-. constructor.
   - cbn [mapM] in H.
     destruct (segment_utt t thr wordsep utt) as [o|e] eqn:Eo; [|discriminate]. cbn [bind] in H.
@@ -167,3 +85,30 @@ Proof.
     + now apply (segment_utt_is_seg t thr wordsep utt o).
     + now apply IH.
 Qed.
+
+(* ---------- the repaired behaviour on separators that broke the in-band version ---------- *)
+(* empty table: every diphone is unseen (probability 1), so every boundary is placed when thr < 1
+   and none when thr = 1.  a=97 b=98 c=99 d=100 ';'=59 ' '=32 *)
+
+(* the word separator is a space: "ab cd" -> "ab cd" (in band: every space was deleted, "abcd") *)
+Example dibs_sep_is_space :
+  segment_utt [] (1 # 2)%Q [32]%N [97; 98; 32; 99; 100]%N = Ok [97; 98; 32; 99; 100]%N.
+Proof. vm_compute. reflexivity. Qed.
+
+(* the word separator "; " contains a space: "a b; c; " -> "a b c" (in band: the marker lost its space
+   and was never replaced, "a;b;c") *)
+Example dibs_sep_contains_space :
+  segment_utt [] (1 # 2)%Q [59; 32]%N [97; 32; 98; 59; 32; 99; 59; 32]%N = Ok [97; 32; 98; 32; 99]%N /\
+  segment_utt [] 1%Q [59; 32]%N [97; 32; 98; 59; 32; 99; 59; 32]%N = Ok [97; 98; 99]%N.
+Proof. vm_compute. split; reflexivity. Qed.
+
+(* two units spell the word separator "ab" and no boundary is placed between them: "a b" -> "ab"
+   (in band: the joined units were taken for a marker, " ") *)
+Example dibs_units_spell_sep :
+  segment_utt [] 1%Q [97; 98]%N [97; 32; 98]%N = Ok [97; 98]%N.
+Proof. vm_compute. reflexivity. Qed.
+
+(* a table with one seen diphone (a, b) of probability 0, separator = space: "a b c" -> "ab c" *)
+Example dibs_sep_is_space_mixed :
+  segment_utt [(([97]%N, [98]%N), 0%Q)] (1 # 2)%Q [32]%N [97; 32; 98; 32; 99]%N = Ok [97; 98; 32; 99]%N.
+Proof. vm_compute. reflexivity. Qed.
